@@ -21,10 +21,18 @@ def replay_behaviours(ctx, behaviours, tag):
     n_bad = 0
     for bi, beh in enumerate(behaviours):
         regs = arm.registers
+        # the spec's initial value 0 means "never written" (writes use 1..DEPTH): give every cell its own token instead,
+        # so that a read served from the wrong physical cell is visible even for cells no action wrote
+        tokR = {k.name: 0x1000 + i for i, k in enumerate(regs._R)}
+        tokS = {m: 0x2000 + i for i, m in enumerate(M.SPSR)}
         for k in regs._R:
-            regs._R[k] = 0
+            regs._R[k] = tokR[k.name]
         for m in M.SPSR:
-            setattr(regs, 'spsr_' + m, 0)
+            setattr(regs, 'spsr_' + m, tokS[m])
+
+        def relabel(post):
+            return {'R': {n: (v if v else tokR[n]) for n, v in post['R'].items()},
+                    'spsr': {m: (v if v else tokS[m]) for m, v in post['spsr'].items()}, 'mode': post['mode']}
         regs.cpsr.m = 19
         regs.scr.ns = 0
         failing = []
@@ -42,7 +50,7 @@ def replay_behaviours(ctx, behaviours, tag):
             except Exception as ex:
                 failing.append('hosterror:%s@%d' % (type(ex).__name__, si))
                 break
-            post = st['post']
+            post = relabel(st['post'])
             for name, v in post['R'].items():
                 if regs._R[RName[name]] != v:
                     failing.append('R.%s@%d' % (name, si))
@@ -52,11 +60,33 @@ def replay_behaviours(ctx, behaviours, tag):
             if regs.cpsr.m != post['mode']:
                 failing.append('mode@%d' % si)
             # reads through the public API must agree with the cells (get / get_rmode)
-            for n in (8, 13, 14):
+            for n in range(15):
                 if regs.get(n) != post['R'][_lookup(n, post['mode'])]:
                     failing.append('get(%d)@%d' % (n, si))
+            bank = _BANK[post['mode']]
+            if bank != 'usr' and regs.get_spsr() != post['spsr'][bank]:
+                failing.append('get_spsr@%d' % si)
+            # reads of another mode's registers through get_rmode
+            om = (16, 17, 18, 19, 22, 23, 27)[(si + bi) % 7]
+            for n in (8, 12, 13, 14):
+                if regs.get_rmode(n, om) != post['R'][_lookup(n, om)]:
+                    failing.append('get_rmode(%d,%d)@%d' % (n, om, si))
             if failing:
                 break
+        if not failing and beh:
+            # tail: the spec's SwitchMode action (MC_Regs: changes no cell) into every mode; all reads of that mode
+            post = relabel(beh[-1]['post'])
+            for m2 in (16, 17, 18, 19, 22, 23, 27, 31):
+                regs.cpsr.m = m2
+                for n in range(15):
+                    if regs.get(n) != post['R'][_lookup(n, m2)]:
+                        failing.append('get(%d)@tail-mode%d' % (n, m2))
+                b2 = _BANK[m2]
+                if b2 != 'usr' and regs.get_spsr() != post['spsr'][b2]:
+                    failing.append('get_spsr@tail-mode%d' % m2)
+                for name, v in post['R'].items():
+                    if regs._R[RName[name]] != v:
+                        failing.append('R.%s@tail-mode%d' % (name, m2))
         ctx.behaviours += 1
         if failing:
             n_bad += 1
@@ -71,8 +101,10 @@ _BANK = {16: 'usr', 17: 'fiq', 18: 'irq', 19: 'svc', 22: 'mon', 23: 'abt', 26: '
 def _lookup(n, mode):
     # only used to pick which recorded cell a public read must return (the table itself is the spec's)
     b = _BANK[mode]
-    if n == 8:
-        return 'R8fiq' if b == 'fiq' else 'R8usr'
+    if n < 8:
+        return 'R%dusr' % n
+    if n < 13:
+        return 'R%d%s' % (n, 'fiq' if b == 'fiq' else 'usr')
     if n == 13:
         return 'SP' + b
     return 'LR' + ('usr' if b == 'hyp' else b)
